@@ -120,7 +120,7 @@ Proof.
   - rewrite R, E. reflexivity.
 Qed.
 
-(* ---- no live job is ever lost?  FALSE of the faithful model ------------------------------ *)
+(* ---- no live job is ever lost ------------------------------------------------------------ *)
 (* every job of a generation that is still live (its shared context not cancelled) and has
    not reported is somewhere in the limiter: queued, about to run, or dialing *)
 Definition Place (l : lim) (x : job) : Prop := InQ l x \/ In x (dialing l).
@@ -129,14 +129,15 @@ Definition NLJ (s : cst) : Prop :=
   forall n j, jget n s = Some j -> jr_reported j = false -> ~ In (jr_gen j) (cancelledG (c_lim s)) ->
     exists x, jid x = n /\ jgrp x = jr_gen j /\ Place (c_lim s) x.
 
-(* decidable version for the witness *)
+(* decidable version for the example *)
 Definition in_limiter (l : lim) (n : Z) : bool :=
   existsb (fun x => jid x =? n) (waitingOnFd l ++ spawned l ++ dialing l ++ flat_map snd (waitingOnPeer l)).
 
-(* The schedule: caller 1 dials peer 1 (perPeerLimit 1, addresses 1 and 2): job 2 dials, job 3
-   waits on the peer limit.  Caller 1 is cancelled and leaves: generation 1 is closed, its
-   worker has not returned yet.  Caller 2 dials the same peer: generation 4, job 5 dials,
-   job 6 waits on the peer limit.  Now the old worker returns (CExit 1): clearAllPeerDials. *)
+(* The schedule of the repaired defect: caller 1 dials peer 1 (perPeerLimit 1, addresses 1 and
+   2): job 2 dials, job 3 waits on the peer limit.  Caller 1 is cancelled and leaves:
+   generation 1 is closed, its worker has not returned yet.  Caller 2 dials the same peer:
+   generation 4, job 5 dials, job 6 waits on the peer limit.  Now the old worker returns
+   (CExit 1): clearAllPeerDials. *)
 Definition stale_exit_schedule : list clabel :=
   [CCall 1 1 false false false; CDeliver 1 false (Some [(1, 0); (2, 0)]); CTimer 1 [] []; CBegin 2;
    CCancel 1; CLeave 1 true; CRes 2 (DRFail ECanceled) []; CFin 2;
@@ -146,11 +147,15 @@ Definition stale_exit_schedule : list clabel :=
 Lemma stale_exit_wf : Forall wf_label stale_exit_schedule.
 Proof. repeat constructor; try discriminate; cbn; intuition discriminate. Qed.
 
-Lemma stale_exit_loses_job :
-  let s := reach 4 1 [1; 2] stale_exit_schedule in
-  jget 6 s = Some (mkJ 4 2 false) /\ cancelledG (c_lim s) = [1] /\ in_limiter (c_lim s) 6 = false /\
-  (* ... and before the old worker returned the job was queued *)
-  in_limiter (c_lim (reach 4 1 [1; 2] (removelast stale_exit_schedule))) 6 = true.
+(* with the code before the repair (clear_peer_old) the live job 6 of generation 4 is lost when
+   the old worker returns; with the repaired clearAllPeerDials it stays queued *)
+Lemma stale_exit_old_vs_new :
+  let pre := reach 4 1 [1; 2] (removelast stale_exit_schedule) in
+  jget 6 pre = Some (mkJ 4 2 false) /\ cancelledG (c_lim pre) = [1] /\
+  in_limiter (c_lim pre) 6 = true /\
+  in_limiter (clear_peer_old (c_lim pre) 1) 6 = false /\
+  in_limiter (clear_peer (c_lim pre) 1) 6 = true /\
+  in_limiter (c_lim (reach 4 1 [1; 2] stale_exit_schedule)) 6 = true.
 Proof. vm_compute. repeat split. Qed.
 
 Lemma in_limiter_place : forall l x, Place l x -> in_limiter l (jid x) = true.
@@ -169,11 +174,3 @@ Proof.
   - apply in_or_app. right. apply in_or_app. right. apply in_or_app. left. exact H.
 Qed.
 
-Lemma no_lost_job_refuted_l : exists ls, Forall wf_label ls /\ ~ NLJ (reach 4 1 [1; 2] ls).
-Proof.
-  exists stale_exit_schedule. split; [apply stale_exit_wf|]. intros H.
-  destruct stale_exit_loses_job as [A [B [C _]]].
-  destruct (H 6 (mkJ 4 2 false) A eq_refl) as [x [X1 [_ X3]]].
-  - rewrite B. cbn. intuition discriminate.
-  - apply in_limiter_place in X3. rewrite X1 in X3. congruence.
-Qed.
